@@ -118,6 +118,7 @@ def run(repo, res):
 
     # ---- R2 resolution functions -----------------------------------------------------------
     M.check_undefined(repo, res, 'C03-R2')
+    M.check_same_line(repo, res, 'C03-R2')
     lint = repo.module_func(LINTER, 'lint')
     e02 = []
     for nd in ast.walk(lint):
